@@ -163,15 +163,15 @@ def main(ctx):
     ctx.assumptions = ["the 'required precision' UserWarning exempts the whole contour (it cannot be attributed to a ray)",
                        "exceedance recomputed with strict > on the supplied sample"]
     q = ctx.quick
-    ns = (200, 1000) if q else (200, 1000, 10000)
-    alphas = [0.01, 0.05, 0.2] if q else [1e-3, 0.01, 0.05, 0.2]
-    steps = [3, 7, 30] if q else [1, 3, 7, 15, 30]
-    aes = [0.01, 0.05, 0.2] if q else [0.005, 0.01, 0.05, 0.2]
-    lohis = [[10, 80], [5, 45], [30, 85]] + ([] if q else [[0, 90]])
+    ns = (200, 1000, 10000) if q else (200, 1000, 10000, 50000)
+    alphas = [1e-3, 0.01, 0.05, 0.2]
+    steps = [3, 7, 15, 30] if q else [1, 3, 7, 15, 30]
+    aes = [0.005, 0.01, 0.05, 0.2]
+    lohis = [[10, 80], [5, 45], [30, 85], [0, 90]]
     cases = []
     for m in MODELS:
         for n in ns:
-            for sseed in ((3,) if q else (3, 4)):
+            for sseed in ((3,) if q else (3, 4, 5)):
                 for kind in ("and", "or"):
                     for alpha in alphas:
                         cases.append({"model": m, "n": n, "sample_seed": sseed, "kinds": [kind], "alphas": [alpha],
